@@ -2,6 +2,7 @@
 
 spec/WorkerPool.tla                 submitter / spawn loop / workers / closer at hook grain over the abstract bounded job queue; variant NotifyOnExit
 spec/trace/Trace_WorkerPoolAbs.tla  TLC judges recorded runs of the real pool (schedule results, job start/end/panic, handler calls, quiescence)
+spec/trace/Trace_WorkerPoolHook.tla hook-level traces of the real pool (every wp.* hook point, in-lock counters) validated against WorkerPool.tla's own actions (advisory)
 """
 import json
 import os
@@ -14,6 +15,69 @@ RULE = ("model: 2-4 jobs (one panicking), max 1-2 workers, standby 0-1, batch 0-
         "worker dies from a held panicking job after the spawn loop used its tokens; a burst of max panicking jobs then a trickle; full queue + dying worker + rejected "
         "submissions) and seeded stress (1-3 submitters, bursts/trickles, Schedule/ScheduleWithTimeout, ok/slow/panicking jobs, max 1-4, standby/batch/queue sizes "
         "varied), each followed by a bounded wait for quiescence with the pool left open. non-trivial = run with a panicking job or >= 2 submitters; distinct = recorded runs")
+
+
+def hook_binding(ctx, tla, quick):
+    """Hook-level traces of the real pool validated against WorkerPool.tla's own actions (advisory: MODEL-DRIFT); corrupted
+    copies must be rejected.  Nothing here changes the verdict: a failure to run is noted, not raised."""
+    from concurrent.futures import ThreadPoolExecutor
+    pre = os.path.join(ctx.scratch, "c09.hook")
+    p = ctx.drv(["c09", "hooktrace", "--rounds", 6 if quick else 60, "--out", pre], timeout=1500)
+    info = json.loads(p.stdout.strip().splitlines()[-1])
+
+    def val(f, timeout=600):
+        r = ctx.tlc("Trace_WorkerPoolHook", workers=1, timeout=timeout, cwd=tla, dfs=True, env_extra={"VERIF_TRACE": f}, heap="6g")
+        n = len(core.read_ndjson(f))
+        if "NotDone" in (r.inv_violated or []):          # the first behaviour that consumes the whole trace ends the search
+            return n, n
+        h = r.printed("HWM")
+        if not h:
+            core.log(r.text[-2000:])
+            raise core.Inconclusive("Trace_WorkerPoolHook did not finish on %s" % f)
+        a, b = [int(x) for x in h[-1].split(",")]
+        return a, b
+    with ThreadPoolExecutor(max_workers=4) as ex:
+        res = list(ex.map(lambda f: (f,) + val(f), info["files"]))
+    events = 0
+    for f, a, b in res:
+        events += a
+        if a != b:
+            lines = core.read_ndjson(f)
+            strip = lambda e: {k: v for k, v in e.items() if k != "nx"}
+            ctx.drift.append("WorkerPool.tla does not explain the hook-level trace %s at line %d: %s (previous: %s)" % (
+                os.path.basename(f), a + 1, json.dumps(strip(lines[a]))[:200], json.dumps(strip(lines[max(0, a - 1)]))[:160]))
+    good = [f for f, a, b in res if a == b]
+    rejected, muts = 0, []
+    if good:
+        L = core.read_ndjson(good[1 if len(good) > 1 else 0])
+        L = L[:next((i for i, e in enumerate(L) if i > 0 and e["ev"] == "reset"), len(L))]     # the first round is enough (a rejection explores everything)
+        for pick, change in ((lambda e: e.get("pt") == "wp.gen.counted", lambda e: e.update(wc=e["wc"] + 1)),          # wrong in-lock counter
+                             (lambda e: e["ev"] == "start", lambda e: e.update(j=e["j"] % L[0]["njobs"] + 1)),             # a job ran that this worker did not take
+                             (lambda e: e["ev"] == "res" and e["r"] == "ok", lambda e: e.update(r="closed"))):           # wrong Schedule result
+            M = [dict(e) for e in L]
+            ks = [i for i, e in enumerate(M) if pick(e)]
+            if ks:
+                change(M[ks[len(ks) // 2]])
+                muts.append(M)
+        ks = [i for i, e in enumerate(L) if e.get("pt") == "wp.worker.exit.post"]
+        if ks:                                                                                                             # a worker leaves without uncounting itself
+            k = ks[0]
+            M = [dict(e) for i, e in enumerate(L) if i != k]
+            for i, e in enumerate(M):                                                                                      # keep the per-thread next-line indices consistent
+                e["nx"] = {t: (v - 1 if v > k + 1 else (0 if v == k + 1 else v)) for t, v in e["nx"].items()}
+            muts.append(M)
+        for n, M in enumerate(muts):
+            mf = "%s.mut%d.ndjson" % (pre, n)
+            core.write_ndjson(mf, M)
+            a, b = val(mf, timeout=900)
+            rejected += a != b
+        if rejected != len(muts):
+            raise core.Inconclusive("hook-level binding accepted %d of %d corrupted traces (vacuous)" % (len(muts) - rejected, len(muts)))
+    ctx.notes.append("hook-level binding: %d hook / result / job lines of the real pool (%d rounds, 6 configurations: max 1-3, standby 0-2, batch 1-3, with and without idle "
+                     "expiry, jam timer, panicking jobs, Close at a random moment) %s by WorkerPool.tla's own actions (Trace_WorkerPoolHook); %d corrupted copies (wrong in-lock "
+                     "worker count, job started by a worker that did not take it, wrong Schedule result, missing exit line) rejected"
+                     % (events, info["rounds"], "accepted" if not any(a != b for _, a, b in res) else "NOT all accepted", rejected))
+    ctx.cov["evaluations"] += events
 
 
 def run(ctx, replay=None):
@@ -77,6 +141,12 @@ def run(ctx, replay=None):
         ctx.report("%s [%s, max=%s, %s]" % (why, e["scenario"], "1" if e["max"] == 1 else ">1", "with panicking job" if panics else "no panic"),
                    "recorded run (%s, max %d): %s: %s" % (e["scenario"], e["max"], json.dumps(e["events"])[:1500], why), {"component": "c09", "run": e})
     ctx.sample(lines[0])
+    try:
+        hook_binding(ctx, tla, quick)
+    except core.Inconclusive as ex:
+        if not ctx.violations:
+            raise
+        ctx.notes.append("hook-level binding not completed on this tree (%s)" % ex)
     ctx.assumptions += [
         "jobs and the panic handler are harness code; a job 'runs' when it logs start; job ids are unique",
         "'never ran although the pool was left open' is a bounded wait (1.5 s, confirmed with 5 s in a second recording); timers: spawn interval 200 us, idle expiry and jam 1 h",
